@@ -9,7 +9,8 @@ use solana_zk_sdk::encryption::{
 };
 use std::mem::{size_of, ManuallyDrop};
 
-/// drop `v` in place and report whether `secret` (or any 8-byte window of it) survives in its storage
+/// drop `v` in place and report whether `secret` (or any 4-byte window of it with at least two non-zero
+/// bytes) survives at the same place in its storage
 fn drop_and_inspect<T>(v: T, secret: &[u8]) -> String {
     let mut m = ManuallyDrop::new(v);
     let p = &*m as *const T as *const u8;
@@ -25,12 +26,11 @@ fn drop_and_inspect<T>(v: T, secret: &[u8]) -> String {
     if offs.is_empty() {
         return "not-found-before-drop".into();
     }
-    // … must no longer hold any non-zero 8-byte chunk of it at the same position
+    // … must no longer hold any 4-byte window of it at the same position (a partial wipe leaves a tail or a head)
     for off in offs {
-        for j in (0..secret.len()).step_by(8) {
-            let e = (j + 8).min(secret.len());
-            let chunk = &secret[j..e];
-            if chunk.iter().any(|b| *b != 0) && &after[off + j..off + e] == chunk {
+        for j in 0..=secret.len().saturating_sub(4) {
+            let chunk = &secret[j..j + 4];
+            if chunk.iter().filter(|b| **b != 0).count() >= 2 && &after[off + j..off + j + 4] == chunk {
                 return "leak".into();
             }
         }
